@@ -61,4 +61,12 @@ CHECKS = {
         "classes enumerate the statement's cases; axes and bounds within a class are sampled.",
    note="Trusted base: vf/ref/intervals.py (30 lines), generic data making unaffected clps distinguishable. Multiplicity of overlapping listed intervals is not judged.",
    technique="runtime monitoring: observable affected sets read from results of real optimisations, judged by a set-valued oracle; recorders on the interval code"),
+ "C09": dict(category="exploration",
+   text="The real DataProviderLinked is constructed for every 2-dataset axis pair of a bounded grid with offsets x 6 tolerances x 3 methods (exhaustive; a "
+        "rotating third of the tolerance/method combinations per pair in the quick tier) and for random 2-4 dataset sets in every order; its tables (aligned axis, "
+        "assignments, stacked data identified by unique ids, aligned weights, AlignDatasetError) are compared with the set of admissible outcomes of a 60-line "
+        "sequential model; a slice goes through optimize() and the C03 result oracle. The alignment is a small deterministic function of the axes, so bounded-"
+        "exhaustive execution is the right level.",
+   note="Trusted base: vf/ref/align.py. Equidistant candidates admit either neighbour. Only the tables are judged, not how xarray builds them.",
+   technique="runtime monitoring: after-construction invariant check of the real alignment tables against an executable reference model; unique-id conservation"),
 }
